@@ -260,25 +260,51 @@ def ax_assign_ptn(tier):
     tagging (C13) accept the same texts: those that start with one or more of [a-zA-Z0-9_] followed by `=` (also when the value spans lines)"""
     l1 = [l for l in fn_literals('src/types.rs', 'drain_env_tokens') if '=' in l and '^' in l]
     l2 = [l for l in fn_literals('src/shell.rs', 'is_assignment_word') if '=' in l and '^' in l]
-    if not l1 or len(set(l1)) != 1 or len(l2) != 1:
+    if not l1 or len(l1) > 2 or len(l2) != 1:
         raise LostAnchor('axcheck assign_ptn: the assignment patterns of drain_env_tokens / is_assignment_word were not found')
     n = 4 if tier == 'quick' else 5
     ts = list(strings(['a', '_', '1', '=', '>', '\n', '-', ' '], n))
-    res = []
-    for ptn in (l1[0], l2[0]):
+    total = 0
+    # every pattern involved (the test and the capture of drain_env_tokens, the exemption of the expansion passes) accepts exactly the texts
+    # that start with NAME= -- and a pattern with groups takes such a text apart into its name and the whole rest, the empty rest included
+    for which, ptn in [('drain_env_tokens', p_) for p_ in l1] + [('is_assignment_word', l2[0])]:
         s_ = Session(); s_.set(ptn)
         for t in ts:
             s_.caps(t)
-        res.append([bool(parse_caps(l)) for l in s_.run()[1:]])
-    for t, a, b in zip(ts, res[0], res[1]):
-        want = re.match(r'^[a-zA-Z0-9_]+=', t) is not None
-        if a != want or b != want:
-            return {'string': t, 'detail': 'drain pattern matches=%s, exemption pattern matches=%s, "starts with NAME=" is %s for %r' % (a, b, want, t)}, 2 * len(ts)
-    return None, 2 * len(ts)
+        out = s_.run()[1:]
+        total += len(ts)
+        for t, l in zip(ts, out):
+            c = parse_caps(l)
+            want = re.match(r'^[a-zA-Z0-9_]+=', t) is not None
+            if bool(c) != want:
+                return {'string': t, 'line': t + ' env' if '\n' not in t else None,
+                        'detail': 'the pattern %r of %s matches=%s, "starts with NAME=" is %s for %r' % (ptn, which, bool(c), want, t)}, total
+            if c and len(c[0]) >= 3 and c[0][1] is not None:
+                if c[0][1] + '=' + (c[0][2] or '') != t:
+                    return {'string': t, 'detail': 'the pattern %r of %s takes %r apart into %r and %r' % (ptn, which, t, c[0][1], c[0][2])}, total
+    return None, total
+
+
+def ax_glob_gate(tier):
+    """the gate of expand_glob: a word is a pattern exactly when it holds a `*` -- the one wildcard character the tokenizer protects when it is escaped"""
+    lits = [l for l in fn_literals('src/shell.rs', 'needs_globbing') if '*' in l]
+    if len(lits) != 1:
+        raise LostAnchor('axcheck glob_gate: the pattern of needs_globbing was not found')
+    n = 4 if tier == 'quick' else 5
+    ts = list(strings(['a', '*', '?', '[', ']', '.'], n))
+    s_ = Session(); s_.set(lits[0])
+    for t in ts:
+        s_.caps(t)
+    out = s_.run()[1:]
+    for t, l in zip(ts, out):
+        if bool(parse_caps(l)) != ('*' in t):
+            return {'string': t, 'detail': 'needs_globbing pattern %r matches=%s for %r (holds a `*`: %s)' % (lits[0], bool(parse_caps(l)), t, '*' in t)}, len(ts)
+    return None, len(ts)
 
 
 AXIOMS = {
-    'C01': [('re_gt', ax_re_gt)], 'C13': [('re_gt', ax_re_gt), ('assign_ptn', ax_assign_ptn)], 'C04': [('re_gt', ax_re_gt)],
+    'C01': [('re_gt', ax_re_gt), ('glob_gate', ax_glob_gate)], 'C13': [('re_gt', ax_re_gt), ('assign_ptn', ax_assign_ptn)], 'C04': [('re_gt', ax_re_gt)],
+    'C09': [('assign_ptn', ax_assign_ptn)], 'C12': [('glob_gate', ax_glob_gate)],
     'C15': [('args_ref', ax_args_ref)],
     'C10': [('env_ref', ax_env_ref)],
     # (the substitution passes no longer use regexes: nothing to validate for C11)
